@@ -106,22 +106,34 @@ class CompMixin(Interp):
                 s.indexed = True
                 return s
             if isinstance(h, HDict):
-                b = self.fresh(st, "k", h.binder.sort())
-                kv = self.lift(b, h.kty)
-                g = subst(h.dom, [(h.binder, b)])
+                bs, kt, kv = self.key_binders(st, h.kty)
+                g = subst(h.dom, [(h.binder, kt)])
                 if mode in ("elems", "keys"):
-                    return Source(binders=[b], guard=g, elem=kv, ordered=False)
+                    return Source(binders=bs, guard=g, elem=kv, ordered=False)
                 val = self.guarded(st, g, lambda: self.load(st, VRef(v.root, v.path + (("k", kv),))))
                 if mode == "values":
-                    return Source(binders=[b], guard=g, elem=val, ordered=False)
-                return Source(binders=[b], guard=g, elem=VTuple([kv, val]), ordered=False)
+                    return Source(binders=bs, guard=g, elem=val, ordered=False)
+                return Source(binders=bs, guard=g, elem=VTuple([kv, val]), ordered=False)
             if isinstance(h, HSet):
-                b = self.fresh(st, "k", h.binder.sort())
-                return Source(binders=[b], guard=subst(h.mem, [(h.binder, b)]), elem=self.lift(b, h.kty), ordered=False)
+                bs, kt, kv = self.key_binders(st, h.kty)
+                return Source(binders=bs, guard=subst(h.mem, [(h.binder, kt)]), elem=kv, ordered=False)
             if isinstance(h, HObj):
                 it = self.call_method(st, v, "__iter__", [], {}, None)
                 return self.source(st, it)
         raise Unsupported(f"iteration over {v!r}")
+
+    def key_binders(self, st, kty):
+        """Fresh binders for a key type: one per component for tuple / record keys (so that the
+        components can be recovered from written keys). Returns (binders, key term, key value)."""
+        if isinstance(kty, (TTuple, TRec)):
+            tys = kty.items if isinstance(kty, TTuple) else [t for _, t in kty.fields]
+            if all(isinstance(t, (TInt, TReal, TBool, TStr, TAny)) for t in tys):
+                bs = [self.fresh(st, "k", t.sort()) for t in tys]
+                vals = [self.lift(b, t) for b, t in zip(bs, tys)]
+                kv = VTuple(vals) if isinstance(kty, TTuple) else VRec(kty.cls, [f for f, _ in kty.fields], vals)
+                return bs, self.lower(kv, kty), kv
+        b = self.fresh(st, "k", kty.sort())
+        return [b], b, self.lift(b, kty)
 
     def elem_is_binder(self, fam):
         if len(fam.binders) != 1:
@@ -339,6 +351,8 @@ class CompMixin(Interp):
 
     def agg_len(self, st, v):
         v = self.force(st, v)
+        if isinstance(v, VDyn):
+            return self.dyn_apply(st, v, lambda x: self.agg_len(st, x))
         if isinstance(v, VStr):
             return VInt(z3.Length(v.t))
         if isinstance(v, (VTuple, VRec)):
